@@ -35,16 +35,16 @@ type LoadConfig struct {
 
 // World is the resolved program.
 type World struct {
-	SplitReturns int // join-and-return blocks folded back into their predecessors (splitret.go)
-	InlineDescr string // helpers inlined at source level ("" = program as written)
-	useSites map[*ssa.Function][]ssa.Instruction
-	Cfg   LoadConfig
-	Fset  *token.FileSet
-	Pkg   *packages.Package
-	Types *types.Package
-	Info  *types.Info
-	Prog  *ssa.Program
-	SPkg  *ssa.Package
+	SplitReturns int    // join-and-return blocks folded back into their predecessors (splitret.go)
+	InlineDescr  string // helpers inlined at source level ("" = program as written)
+	useSites     map[*ssa.Function][]ssa.Instruction
+	Cfg          LoadConfig
+	Fset         *token.FileSet
+	Pkg          *packages.Package
+	Types        *types.Package
+	Info         *types.Info
+	Prog         *ssa.Program
+	SPkg         *ssa.Package
 
 	// All functions with bodies that belong to the package (declared functions,
 	// methods, anonymous functions, init) plus synthetic wrappers over them.
@@ -134,14 +134,14 @@ func Load(cfg LoadConfig) (*World, error) {
 
 	w := &World{
 		InlineDescr: inlineDescr,
-		Cfg:    cfg,
-		Fset:   root.Fset,
-		Pkg:    root,
-		Types:  root.Types,
-		Info:   root.TypesInfo,
-		Prog:   prog,
-		SPkg:   spkgs[0],
-		byName: map[string]*ssa.Function{},
+		Cfg:         cfg,
+		Fset:        root.Fset,
+		Pkg:         root,
+		Types:       root.Types,
+		Info:        root.TypesInfo,
+		Prog:        prog,
+		SPkg:        spkgs[0],
+		byName:      map[string]*ssa.Function{},
 	}
 	for _, f := range root.CompiledGoFiles {
 		w.Files = append(w.Files, filepath.Base(f))
@@ -166,7 +166,21 @@ func Load(cfg LoadConfig) (*World, error) {
 	for _, fn := range w.Funcs {
 		canonicaliseComparisons(fn)
 		canonicaliseBranches(fn)
-		w.SplitReturns += splitReturns(fn)
+		touched := 0
+		for k := 0; k < 4; k++ {
+			n := splitReturns(fn) + threadConstBranches(fn)
+			touched += n
+			if n == 0 {
+				break
+			}
+		}
+		if touched > 0 {
+			w.SplitReturns += touched
+			var sb strings.Builder
+			if !ssaSanityCheck(fn, &sb) {
+				return nil, &loadError{"SSA normalisation left " + w.Name(fn) + " ill-formed: " + firstLines(sb.String(), 6)}
+			}
+		}
 	}
 	w.indexCallSites()
 	curWorld = w
@@ -523,7 +537,6 @@ func EachInstr(fn *ssa.Function, f func(ssa.Instruction)) {
 	}
 }
 
-
 // canonicaliseComparisons rewrites every comparison of the package's SSA into one operand order, so that
 // `a < b` and `b > a` (and `nil == x`, `2 == len(p)`) are the same instruction for every rule: constants go
 // to the right, loop-carried values (phis) to the left, lengths to the right of what they bound. The
@@ -590,7 +603,6 @@ func canonicaliseComparisons(fn *ssa.Function) {
 	}
 }
 
-
 // canonicaliseBranches turns `if a != b goto T else F` into `if a == b goto F else T` when the comparison has
 // no other user: an inverted condition with swapped branches is then the same SSA as the original. The
 // successor order is part of the block, predecessors and phi edges are untouched, so the CFG is unchanged.
@@ -626,7 +638,6 @@ func canonicaliseBranches(fn *ssa.Function) {
 		b.Succs[0], b.Succs[1] = b.Succs[1], b.Succs[0]
 	}
 }
-
 
 // ---- helper transparency ------------------------------------------------------------------
 //
